@@ -9,6 +9,7 @@ mod c02;
 mod c06;
 mod c07;
 mod c08;
+mod c09;
 mod c12;
 mod c13;
 mod c14;
@@ -40,6 +41,7 @@ fn replay_dispatch(ctx: &Ctx, id: &str, case: &serde_json::Value) {
                         "C14" => c14::replay(ctx, &case),
                         "C07" => c07::replay(ctx, &case),
                         "C13" => c13::replay(ctx, &case),
+                        "C09" => c09::replay(ctx, &case),
                         "C17" => c17::replay(ctx, &case),
                         "C18" => c18::replay(ctx, &case),
                         "C19" => c19::replay(ctx, &case),
@@ -210,6 +212,7 @@ fn main() {
                         "C14" => c14::run(&ctx),
                         "C07" => c07::run(&ctx),
                         "C13" => c13::run(&ctx),
+                        "C09" => c09::run(&ctx),
                         "C17" => c17::run(&ctx),
                         "C18" => c18::run(&ctx),
                         "C19" => c19::run(&ctx),
